@@ -1094,7 +1094,23 @@ public:
   Dom &second() { return m_product.second(); }
 
   bool operator<=(const bool_num_domain_t &other) const override {
-    return m_product <= other.m_product;
+    if (is_bottom()) {
+      return true;
+    } else if (other.is_bottom()) {
+      return false;
+    }
+    // What other remembers for its Boolean variables restricts its
+    // concrete states (see assume_bool). Thus, it must be remembered
+    // also by *this, and the remembered constraints that can be
+    // applied in other (i.e., their variables are unchanged) must be
+    // applicable in *this.
+    return m_product <= other.m_product &&
+           m_bool_to_lincsts <= other.m_bool_to_lincsts &&
+           m_bool_to_refcsts <= other.m_bool_to_refcsts &&
+           m_bool_to_bools <= other.m_bool_to_bools &&
+           (m_unchanged_vars <= other.m_unchanged_vars ||
+	    (other.m_bool_to_lincsts.is_top() &&
+	     other.m_bool_to_refcsts.is_top()));
   }
 
   bool operator==(const bool_num_domain_t &other) const {
